@@ -40,7 +40,7 @@ const (
 
 	c01StallGap        = 3 * time.Second  // the 250 ms drain loop was not scheduled for this long: the process was frozen
 	c01QuietAfterStall = 35 * time.Second // > MaxConveyorDelay (24 s deadline of an in-flight recent send) of normally scheduled time
-	c01Cluster      = "verif"
+	c01Cluster         = "verif"
 )
 
 // ---------------------------------------------------------------------------------
